@@ -8,7 +8,7 @@ import operator
 from .model import (AnalysisError, ClassInfo, EnumMember, ExtRef, FuncInfo, ModuleRef, ParamsValue, VarRef,
                     dotted)
 from .values import (AttrFieldV, BytesV, ClassV, ComposerV, DictV, FieldV, FuncV, InputV, LambdaV, ListV, ModuleV,
-                     ObjV, ParserV, SelfV, Sym, Unknown, ValidatorV, is_const)
+                     ObjV, ParserV, SelfV, Sym, Unknown, ValidatorV, is_const, show)
 
 BINOPS = {
     ast.Add: ('add', operator.add), ast.Sub: ('sub', operator.sub), ast.Mult: ('mul', operator.mul),
@@ -39,8 +39,10 @@ def truth(v):
     if is_const(v):
         return bool(v)
     if isinstance(v, ListV):
-        if v.items:
+        if v.items and (v.complete or any(not (isinstance(x, Sym) and x.op in ('repeat', 'splat', 'comp')) for x in v.items)):
             return True
+        if v.items:
+            return None
         return False if v.complete else None
     if isinstance(v, DictV):
         if v.pairs:
@@ -151,7 +153,11 @@ class ExprMixin:
             return self.eval(node.body, fr)
         if t is False:
             return self.eval(node.orelse, fr)
-        return Sym('ifexp', c, self.eval(node.body, fr), self.eval(node.orelse, fr))
+        fr.cond_depth += 1
+        try:
+            return Sym('ifexp', c, self.eval(node.body, fr), self.eval(node.orelse, fr))
+        finally:
+            fr.cond_depth -= 1
 
     def e_UnaryOp(self, node, fr):
         v = self.eval(node.operand, fr)
@@ -170,9 +176,28 @@ class ExprMixin:
     def e_BoolOp(self, node, fr):
         vals = []
         is_and = isinstance(node.op, ast.And)
-        for e in node.values:
+        added = []
+        try:
+            return self._boolop(node, fr, vals, is_and, added)
+        finally:
+            for k in added:
+                if k is None:
+                    fr.cond_depth -= 1
+                else:
+                    fr.nonempty.discard(k)
+
+    def _boolop(self, node, fr, vals, is_and, added):
+        for i, e in enumerate(node.values):
+            if i == 1:
+                fr.cond_depth += 1
+                added.append(None)
             v = self.eval(e, fr)
             t = truth(v)
+            if is_and and t is None:
+                k = show(v)
+                if k not in fr.nonempty:
+                    fr.nonempty.add(k)
+                    added.append(k)
             if is_and and t is False:
                 return v if not vals else (Sym('booland', *(vals + [v])) if vals else v)
             if not is_and and t is True:
@@ -233,6 +258,10 @@ class ExprMixin:
             if isinstance(a, (EnumMember, ClassV)) and isinstance(b, (EnumMember, ClassV)) and type(a) is type(b):
                 eq = (a == b)
                 return eq if name in ('==', 'is') else (not eq)
+        if name in ('in', 'not in') and isinstance(b, DictV) and b.complete and not b.star and is_const(a) and \
+                all(is_const(k) for k, _ in b.pairs):
+            r = any(k == a for k, _ in b.pairs)
+            return r if name == 'in' else (not r)
         if name in ('in', 'not in') and isinstance(b, (ListV, tuple)):
             items = b.items if isinstance(b, ListV) else list(b)
             complete = b.complete if isinstance(b, ListV) else True
@@ -362,9 +391,20 @@ class ExprMixin:
         if isinstance(base, ParserV):
             if isinstance(idx, str):
                 if idx in base.keys and idx not in base.deleted:
+                    if idx in base.maybe and fr is not None and not fr.cond_depth:
+                        self.risk(fr, 'key', ('builtins.KeyError',), Sym('maybekey', base, idx), node)
                     return base.keys[idx]
+                if fr is not None:
+                    self.risk(fr, 'key', ('builtins.KeyError',), Sym('missingkey', base, idx), node)
                 return Sym('missingkey', base, idx)
             return Sym('index', base, idx)
+        if fr is not None and isinstance(idx, int) and not isinstance(idx, bool) and not is_const(base) and \
+                not isinstance(base, (tuple, DictV)) and not (isinstance(base, ListV) and base.complete) and \
+                not self.at_least_one(base) and show(base) not in fr.nonempty and \
+                not (isinstance(base, Sym) and base.op == 'attr' and base.args[1] == 'args'):
+            self.risk(fr, 'index', ('builtins.IndexError',), base, node)
+        if fr is not None and isinstance(idx, str) and isinstance(base, (Sym, FieldV)):
+            self.risk(fr, 'key', ('builtins.KeyError',), base, node)
         if isinstance(base, ListV) and isinstance(idx, int) and not isinstance(idx, bool):
             if base.complete and -len(base.items) <= idx < len(base.items):
                 return base.items[idx]
@@ -385,6 +425,24 @@ class ExprMixin:
             except IndexError:
                 return Sym('index', base, idx)
         return Sym('index', base, idx)
+
+    @staticmethod
+    def at_least_one(v):
+        """sequence kinds known to hold at least one element: str.split(), parse_string_array without skip_empty,
+        slices thereof are *not* included"""
+        if isinstance(v, Sym) and v.op == 'call' and v.args and isinstance(v.args[0], Sym) and v.args[0].op == 'attr' \
+                and v.args[0].args[1] in ('split', 'rsplit', 'splitlines') and v.args[0].args[1] != 'splitlines':
+            return True
+        if isinstance(v, Sym) and v.op == 'call' and v.args and v.args[0] == 'struct.unpack':
+            return True
+        if isinstance(v, FieldV) and v.op is not None and v.op.prim == 'parse_string_array':
+            se = v.op.args.get('skip_empty', False)
+            return se is False
+        if isinstance(v, ListV) and v.items and not isinstance(v.items[0], Sym):
+            return True
+        if isinstance(v, ListV) and len(v.items) >= 1 and all(not (isinstance(x, Sym) and x.op in ('splat', 'repeat', 'comp')) for x in v.items[:1]):
+            return True
+        return False
 
     # -- attributes -------------------------------------------------------------------
     def e_Attribute(self, node, fr):
@@ -442,8 +500,18 @@ class ExprMixin:
                 return Sym('unparsed', base, n)
             if attr == 'byte_order':
                 return base.order
+            if attr == '_parsed_length':
+                return Sym('plen', base, n)
+            if attr == '_parsable':
+                return Sym('bytesof', base)
+            if attr == '_parsed_values':
+                return Sym('valuesof', base)
+            if attr == '_encoding':
+                return base.encoding
             f = self.parser_class(base).resolve(attr)
             if f is not None:
+                if f.is_property and fr is not None:
+                    return self.call_function(f, base, [], {}, fr, node)
                 return FuncV(f, recv=base, defcls=f.cls)
             return Unknown('parser attr %s' % attr)
         if isinstance(base, ComposerV):
